@@ -184,9 +184,11 @@ func runC17(r *Runner, g *Gen, tier string) string {
 		if k%2 == 1 {
 			items = append(items, L(A("reg"), A("2"), A(hxs("string")), A(hxs("c17x")), A("str")))
 		}
+		sv := &Val{K: "r", L: []*Val{{K: "s", Data: []byte("abc")}, {K: "s", Data: []byte("de")}}}
 		for _, inst := range []string{"1", "0", "2", "1"} {
 			items = append(items, L(A("cft"), A(inst), strT.Sexp(), A(hxs(""))))
 			items = append(items, L(A("cft"), A(inst), B("str").Sexp(), A(hxs("c17x"))))
+			items = append(items, L(A("enc"), A(inst), strT.Sexp(), sv.Sexp()))
 		}
 		r.Do(L(items...), true, "world.default-reg")
 	}
@@ -266,6 +268,7 @@ func oracleWorld(op *Sexp, res string) []string {
 	}
 	seen := map[string]string{}
 	var fails []string
+	fails = append(fails, worldExpect(op, parts)...)
 	for i, inst := range insts {
 		if prev, ok := seen[inst]; ok {
 			if prev != encs[i] {
@@ -276,4 +279,116 @@ func oracleWorld(op *Sexp, res string) []string {
 		}
 	}
 	return fails
+}
+
+// worldExpect: what each (enc I T V) of a script must produce, from the script
+// alone: instance I's options and ITS OWN registrations decide the bytes; a tag
+// option that names no codec on that instance is an error; the value comes back
+// as written. Registrations on other instances, and on the package-level default
+// under its private tag, play no part.
+func worldExpect(op *Sexp, parts []string) []string {
+	type inst struct {
+		flags  string
+		custom map[string]bool
+	}
+	insts := []*inst{{flags: "00", custom: map[string]bool{}}}
+	var fails []string
+	for j, it := range op.List[1:] {
+		if j >= len(parts) {
+			break
+		}
+		switch it.head() {
+		case "new":
+			insts = append(insts, &inst{flags: it.List[1].Atom, custom: map[string]bool{}})
+		case "reg":
+			var i int
+			fmt.Sscanf(it.List[1].Atom, "%d", &i)
+			n, _ := unhx(it.List[2].Atom)
+			tg, _ := unhx(it.List[3].Atom)
+			if i >= 0 && i < len(insts) {
+				if m := it.List[4].Atom; !strings.HasPrefix(m, "flat") && m != "str" {
+					return fails // scripted cases with memory-incompatible markers: model comparison only
+				}
+				insts[i].custom[string(n)+"|"+string(tg)] = true
+			}
+		case "null":
+			return fails
+		case "enc":
+			var i int
+			fmt.Sscanf(it.List[1].Atom, "%d", &i)
+			td, e1 := parseTyDef(it.List[2])
+			v, e2 := parseVal(it.List[3])
+			if e1 != nil || e2 != nil || i < 0 || i >= len(insts) || multiEntryMaps(v) {
+				continue
+			}
+			in := insts[i]
+			want := "err"
+			if worldBuildable(td, "", in.custom) {
+				e := refEnc{protoTime: in.flags[0] == '1', protoArrays: in.flags[1] == '1', custom: in.custom}
+				want = hx(e.top(td, v, "")) + " " + normPos(td, v, false).String()
+			}
+			if parts[j] != want {
+				fails = append(fails, fmt.Sprintf("instance %d (options %s, own registrations %v): got %s want %s", i, in.flags, keysOf(in.custom), parts[j], want))
+			}
+		}
+	}
+	return fails
+}
+
+func keysOf(m map[string]bool) []string {
+	var out []string
+	for k := range m {
+		out = append(out, k)
+	}
+	return out
+}
+
+// worldBuildable: every tag option in the definition names a codec on this instance.
+func worldBuildable(t *TyDef, opt string, custom map[string]bool) bool {
+	switch t.K {
+	case "named":
+		if custom[t.Name+"|"+opt] {
+			return true
+		}
+		return worldBuildable(t.Elem, opt, custom)
+	case "ptr":
+		return worldBuildable(t.Elem, opt, custom)
+	case "slice":
+		if t.isBytes() {
+			return true
+		}
+		return worldBuildable(t.Elem, "", custom)
+	case "map":
+		return worldBuildable(t.Key, "", custom) && worldBuildable(t.Elem, "", custom)
+	case "struct":
+		for _, f := range t.Fields {
+			if !fieldEncoded(f) {
+				continue
+			}
+			_, fopt := splitTag(f.Plenc)
+			if fopt == "intern" {
+				fopt = ""
+			}
+			if !worldBuildable(f.T, fopt, custom) {
+				return false
+			}
+		}
+		return true
+	}
+	if custom[goBasicName(t.K)+"|"+opt] {
+		return true
+	}
+	return basicOK(t.K, opt)
+}
+
+func goBasicName(k string) string {
+	switch k {
+	case "str":
+		return "string"
+	case "f32":
+		return "float32"
+	case "f64":
+		return "float64"
+	}
+	return k
 }
